@@ -343,6 +343,34 @@ func existsStrictness(c *h.Ctx) {
 	}
 }
 
+// existsBelowAny: in a strict path, below .** a member accessor skips what it
+// does not apply to - also inside exists() in a filter there: exists(@.a) on a
+// scalar, or on an object without a, is false (e is empty), not unknown (e did
+// not fail). Visible under !, is unknown and De Morgan.
+func existsBelowAny(c *h.Ctx) {
+	type row struct {
+		expr string
+		want model.Tri
+	}
+	doc := `{"x":1,"y":{"a":2},"z":[3]}`
+	rows := []row{
+		{`exists($.** ? (!(exists(@.a))))`, model.True}, {`exists($.** ? ((exists(@.a)) is unknown))`, model.False}, {`exists($.** ? (exists(@.a)))`, model.True},
+		{`!(exists($.**{1} ? (!(exists(@.nokey)))))`, model.False}, {`exists($.**{1} ? (!(exists(@.a)) && !(exists(@.b))))`, model.True}, {`exists($.**{1} ? (!(exists(@.a) || exists(@.b))))`, model.True},
+		{`exists($.x.** ? (!(exists(@.a))))`, model.True}, {`exists($.x.** ? ((exists(@.a[*])) is unknown))`, model.False}, {`exists($.** ? (!(exists(@.*))))`, model.True},
+		{`exists($.**{2} ? ((!(exists(@.a))) is unknown))`, model.False},
+	}
+	e := &c11Eval{c: c, doc: doc, vars: stdVars, lax: false}
+	for i, r := range rows {
+		if !c.Mine(i) {
+			continue
+		}
+		for _, useNum := range []bool{false, true} {
+			e.useNum = useNum
+			e.judge("exists", r.expr, outcomeSet{vals: map[model.Tri]bool{r.want: true}}, h.F("form", "below-any"))
+		}
+	}
+}
+
 // existsSelective: exists(e) is true when e selects an item and raises no
 // error - whichever item e visited last (an operand that keeps an earlier
 // item and rejects the last one is not empty).
@@ -617,6 +645,7 @@ func runC11(c *h.Ctx) {
 	abortedOperands(c)
 	relatedOperands(c)
 	existsStrictness(c)
+	existsBelowAny(c)
 	existsSelective(c)
 	connectivesOverManyItems(c)
 	// random laws
